@@ -9,6 +9,12 @@ From TarsV Require Import Gen.Consts Base.Hex Codec.Prim Codec.GenCodec Frame.Fr
 Import ListNotations.
 Open Scope N_scope.
 
+(* ---- the protocol constants of the tree are the protocol's ---- *)
+Theorem C10_protocol_constants :
+  c_TARSVERSION = 1%Z /\ c_TUPVERSION = 3%Z /\ c_JSONVERSION = 5%Z /\ c_TARSNORMAL = 0%Z /\ c_TARSONEWAY = 1%Z /\
+  c_TARSSERVERSUCCESS = 0%Z /\ c_TARSSERVERQUEUETIMEOUT = (-6)%Z.
+Proof. exact InvokeProofs.protocol_constants. Qed.
+
 (* ---- exactly one reply for a two-way request, none for a one-way request ---- *)
 Theorem C10_count : forall dispatch cfg pkg r queued, parse_request pkg = Some r ->
   length (fst (serve_packet dispatch cfg pkg queued)) = if oneway r then 0%nat else 1%nat.
@@ -159,6 +165,7 @@ Theorem C10_tcp_segmentation : forall dispatch max cfg pkgs chunks queued,
   tcp_session dispatch max cfg chunks queued = session dispatch cfg (combine pkgs queued).
 Proof. exact InvokeProofs.tcp_segmentation. Qed.
 
+Print Assumptions C10_protocol_constants.
 Print Assumptions C10_count.
 Print Assumptions C10_identity.
 Print Assumptions C10_identity_on_wire.
